@@ -39,7 +39,7 @@ ASSUMPTIONS = [
     "width/height of the description come from the P2P table (largest listed "
     "coordinate + 1)",
 ]
-FLOORS = {"system_info_checked": 150, "chip_info_compared": 1200,
+FLOORS = {"description_iterator_nested": 80, "code_name_compared": 100, "iobuf_non_ascii": 15, "system_info_checked": 150, "chip_info_compared": 1200,
           "machine_model_checked": 150, "core_constraints_checked": 150,
           "processor_status_checked": 150, "iobuf_checked": 150,
           "p2p_table_checked": 100, "unresponsive_chip": 100}
